@@ -43,6 +43,9 @@ def _shift_pairs(ctx, rng, count):
         ctx.evaluations += 1
         ctx.count("shift_pair")
         r1, r2 = c1.run_real(), c2.run_real()
+        if r1.get("offsets") is None or r2.get("offsets") is None:
+            ctx.count("ranking_not_a_permutation(C01's subject)")
+            continue
         J1, J2 = greedy.judge_batch(ctx, [(c1, r1), (c2, r2)])
         k = r1["k"]
         upto = 0
